@@ -864,6 +864,23 @@ impl<'a> Exec<'a> {
         Ok(())
     }
 
+    /// the single file `want` (other entries of the directory are not looked at)
+    fn check_extracted_one(&mut self, check: &str, what: &str, dir_rel: &str, want: &(String, usize), args: &[String], out: &RunOut) -> R {
+        let snap = snapshot(&self.abs(dir_rel));
+        let p = norm_path(&want.0);
+        let i = want.1;
+        let ok = match snap.get(&p) {
+            Some(Entry::File { size, sha }) => *size == self.contents[i].len() as u64 && *sha == self.shas[i],
+            _ => false,
+        };
+        if !ok {
+            return Err(self.viol(check, json!({"what": format!("{what}-content")}),
+                format!("after `{}` over an existing file, {} is {} instead of {} bytes sha256 {}", args[0], lossy(&p), snap.get(&p).map(|e| e.brief()).unwrap_or_else(|| "absent".into()), self.contents[i].len(), hx(&self.shas[i][..6])),
+                args, Some(out)));
+        }
+        Ok(())
+    }
+
     fn read_checks(&mut self, st: &Stage) -> R {
         let names = self.names.clone();
         let quick_big = !self.thorough && self.case.total_bytes() >= BLOCK - 1;
@@ -1046,6 +1063,38 @@ impl<'a> Exec<'a> {
                 return Err(self.viol("extract-whole", json!({"what": "extract-whole-failed"}), format!("`extract` of the whole archive: exit {} {}", out.code, out.stderr_excerpt()), &args, Some(&out)));
             }
             self.check_extracted("extract-whole", "extract-whole", &dir, &names, &args, &out)?;
+            // ---- the same extraction again over an older, LONGER version of every file (an output
+            // directory being refreshed): the files must end up with the archive's bytes, nothing more
+            if self.stage_idx == 0 {
+                fn lengthen(d: &Path) {
+                    if let Ok(rd) = std::fs::read_dir(d) {
+                        for e in rd.flatten() {
+                            let p = e.path();
+                            if p.is_dir() { lengthen(&p); } else if let Ok(mut f) = std::fs::OpenOptions::new().append(true).open(&p) {
+                                use std::io::Write;
+                                let _ = f.write_all(b"-- older, longer version of this file --");
+                            }
+                        }
+                    }
+                }
+                lengthen(&self.abs(&dir));
+                let out = self.run(&args);
+                if !out.ok() {
+                    return Err(self.viol("extract-whole", json!({"what": "extract-over-existing-failed"}), format!("`extract` over an existing output directory: exit {} {}", out.code, out.stderr_excerpt()), &args, Some(&out)));
+                }
+                self.rep.count("extract:over-existing-files");
+                self.check_extracted("extract-whole", "extract-over-existing", &dir, &names, &args, &out)?;
+                if let Some(n0) = names.first().cloned() {
+                    lengthen(&self.abs(&dir));
+                    let mut a2 = self.base("extract", st);
+                    a2.extend([s("-o"), dir.clone(), n0.0.clone()]);
+                    let out = self.run(&a2);
+                    if out.ok() {
+                        // only the named file is refreshed: check it alone
+                        self.check_extracted_one("extract-listed", "extract-listed-over-existing", &dir, &n0, &a2, &out)?;
+                    }
+                }
+            }
             let _ = std::fs::remove_dir_all(self.abs(&dir));
         }
 
